@@ -655,6 +655,18 @@ class Engine:
                     x = seq_a.arg(0)
                     out.append(z3.Implies(z3.And(Py.is_list(x), i >= 0, i < z3.Length(seq_a)),
                                           z3.And(seq_b == seq_a, t)))
+            elif t.decl().kind() == z3.Z3_OP_SEQ_INDEX and t.num_args() == 3 and z3.is_app(t.arg(1)) \
+                    and t.arg(1).decl().kind() == z3.Z3_OP_SEQ_UNIT and z3.is_int_value(t.arg(2)) and t.arg(2).as_long() == 0:
+                # xs.index(e) (first occurrence from 0) IS an occurrence when e occurs at all, and the first
+                # occurrence in a ++ b lies in a when a contains e -- both valid in the theory of sequences
+                sq, un = t.arg(0), t.arg(1)
+                out.append(z3.Implies(z3.Contains(sq, un), z3.And(t >= 0, t < z3.Length(sq), sq[t] == un.arg(0))))
+                if z3.is_app(sq) and sq.decl().kind() == z3.Z3_OP_SEQ_CONCAT and sq.num_args() >= 2:
+                    a = sq.arg(0)
+                    out.append(z3.Implies(z3.Contains(a, un), t == z3.IndexOf(a, un, z3.IntVal(0))))
+                    if sq.num_args() == 2 and sq.arg(1).eq(un):
+                        # ... and in a ++ [e] it is the last position when a does not contain e
+                        out.append(z3.Implies(z3.Not(z3.Contains(a, un)), t == z3.Length(a)))
             stack.extend(t.children())
         return out
 
@@ -921,7 +933,9 @@ class Engine:
             # spend little time on the early rounds, the full budget on the last one
             budget = timeout_ms if (depth == fuel or not frontier) else min(timeout_ms, [1000, 2500, 5000, 8000][min(depth, 3)])
             s.set("timeout", budget)
-            for f in base:
+            if getattr(ob, "seed", 0):
+                s.set("random_seed", int(ob.seed))      # retries use another seed: the sequence solver's
+            for f in base:                              # success on identical input varies from run to run
                 s.add(f)
             for d in defs:
                 s.add(d)
